@@ -161,6 +161,12 @@ def run(res, tier, seed, driver_ok):
                         if not ok2:
                             continue
                         th2 = np.asarray(th2, dtype=float).reshape(-1)
+                        st2 = np.asarray(arm._theta, dtype=float).reshape(-1)
+                        d2_ = (st2 - th2) / (2 * math.pi)
+                        if len(st2) != len(th2) or G.gt(float(np.max(np.abs(d2_ - np.round(d2_)))), 1e-9):
+                            bad('state-not-solution:%s' % path2, 'after a successful solve the arm\'s stored joint vector is not the returned solution (an earlier solve on the same arm had failed)' if stats['failure'] else
+                                'after a successful solve the arm\'s stored joint vector is not the returned solution', {'arm': kind, 'seed_arm': seed_arm, 'path': path2, 'history': 'earlier solves on this arm, then a solve started at a solution'},
+                                {'stored': st2.tolist(), 'returned': th2.tolist()})
                         V2 = err_twist_ref(spec.fk(baseT, spec.M, th2), goal2)
                         eo2, ev2 = float(np.linalg.norm(V2[:3])), float(np.linalg.norm(V2[3:]))
                         if eo2 > rot_tol * (1 + 1e-6) + 1e-12 or ev2 > pos_tol * (1 + 1e-6) + 1e-12:
